@@ -139,6 +139,9 @@ func runWorker(bin string, job simkit.Job, dir string, timeout time.Duration) wo
 		}
 	}
 	if b, e := os.ReadFile(logPath); e == nil {
+		if os.Getenv("VERIF_KEEPLOG") != "" {
+			os.WriteFile(filepath.Join(os.Getenv("VERIF_KEEPLOG"), filepath.Base(logPath)), b, 0o644)
+		}
 		if len(b) > 6000 {
 			b = append(b[:3000:3000], append([]byte("\n...\n"), b[len(b)-3000:]...)...)
 		}
@@ -194,6 +197,7 @@ func main() {
 	scenario := fs.String("scenario", "", "restrict to one scenario")
 	runs := fs.Int("runs", 0, "max runs per worker (0 = until budget)")
 	noShrink := fs.Bool("noshrink", false, "do not minimise findings")
+	exact := fs.Uint64("exactseed", 0, "execute exactly this run seed (debugging)")
 	fs.Parse(args[1:])
 	spec, ok := properties[prop]
 	if !ok {
@@ -239,7 +243,7 @@ func main() {
 		go func(w int) {
 			defer wg.Done()
 			job := simkit.Job{Property: prop, Tier: *tier, Mode: "explore", SeedBase: uint64(seed), Worker: w, Workers: *workers,
-				MaxRuns: *runs, BudgetSec: b, Scenario: *scenario, NoShrink: *noShrink}
+				MaxRuns: *runs, BudgetSec: b, Scenario: *scenario, NoShrink: *noShrink, ExactSeed: *exact}
 			results[w] = runWorker(bin, job, dir, time.Duration(b*float64(time.Second))*6+10*time.Minute)
 		}(w)
 	}
@@ -335,6 +339,9 @@ func main() {
 		}
 	}
 
+	if d := os.Getenv("VERIF_KEEPLOG"); d != "" && len(troubles) > 0 {
+		os.WriteFile(filepath.Join(d, "troubles.txt"), []byte(strings.Join(troubles, "\n=====\n")), 0o644)
+	}
 	wall := time.Since(start).Seconds()
 	distinct := len(fps)
 	cov := map[string]any{
@@ -367,9 +374,16 @@ func main() {
 	}
 	fmt.Printf("%s %s: %d runs (%d non-trivial, %d distinct), %d steps, %.0f simulated s, %.1f s wall, %d violation(s)\n",
 		prop, *tier, agg.Runs, agg.NonTrivial, distinct, agg.Steps, float64(agg.SimNanos)/1e9, wall, violations)
+	if len(troubles) > 0 && exitCode != 0 {
+		fmt.Printf("(%d worker trouble report(s) besides the violation; first: %s)\n", len(troubles), firstLines(troubles[0], 8))
+	}
 	if len(troubles) > 0 && exitCode == 0 {
-		for _, t := range troubles {
-			fmt.Println("TROUBLE:", firstLines(t, 60))
+		for i, t := range troubles {
+			if i >= 3 {
+				fmt.Printf("TROUBLE: ... and %d more\n", len(troubles)-i)
+				break
+			}
+			fmt.Println("TROUBLE:", firstLines(t, 40))
 		}
 		exit(2)
 	}
